@@ -217,6 +217,8 @@ impl<'a> Iterator for RTreeWrappingNearestNeighbourIter<'a, Generator> {
 
     fn next(&mut self) -> Option<Self::Item> {
         while let Some(current) = self.nodes.pop() {
+            #[cfg(meshless_voro_verif)]
+            crate::verif::sched_point(crate::verif::SITE_NN_HEAP_POP);
             match current {
                 RTreeNodeDistanceWrapper {
                     node: RTreeNode::Parent(ref data),
